@@ -95,15 +95,17 @@ impl ExclusiveExtractor for WebsocketUpgrade {
         rqctx: &RequestContext<Context>,
         request: hyper::Request<Body>,
     ) -> Result<Self, HttpError> {
+        // A list-valued header may be sent as several header lines, and its
+        // elements may be separated by tabs as well as spaces.
         if !request
             .headers()
-            .get(header::CONNECTION)
-            .and_then(|hv| hv.to_str().ok())
-            .map(|hv| {
-                hv.split(|c| c == ',' || c == ' ')
+            .get_all(header::CONNECTION)
+            .iter()
+            .filter_map(|hv| hv.to_str().ok())
+            .any(|hv| {
+                hv.split(|c| c == ',' || c == ' ' || c == '\t')
                     .any(|vs| vs.eq_ignore_ascii_case("upgrade"))
             })
-            .unwrap_or(false)
         {
             return Err(HttpError::for_bad_request(
                 None,
@@ -113,13 +115,13 @@ impl ExclusiveExtractor for WebsocketUpgrade {
 
         if !request
             .headers()
-            .get(header::UPGRADE)
-            .and_then(|v| v.to_str().ok())
-            .map(|v| {
-                v.split(|c| c == ',' || c == ' ')
+            .get_all(header::UPGRADE)
+            .iter()
+            .filter_map(|v| v.to_str().ok())
+            .any(|v| {
+                v.split(|c| c == ',' || c == ' ' || c == '\t')
                     .any(|v| v.eq_ignore_ascii_case("websocket"))
             })
-            .unwrap_or(false)
         {
             return Err(HttpError::for_bad_request(
                 None,
